@@ -273,7 +273,7 @@ def run_check(prop, tier, jobs, meta, nproc=None):
     new_viol = []
     known_hits = {}
     inconclusive = []
-    os.makedirs(os.path.join(VERIF, 'replays'), exist_ok=True)
+    os.makedirs(os.environ.get('JV_REPLAY_DIR') or os.path.join(VERIF, 'replays'), exist_ok=True)
     for r in results:
         jd = r['job']
         st = r['status']
@@ -315,7 +315,7 @@ def write_replay(prop, jd, v):
             'oracle': v['oracle'], 'values': v['values'], 'choices': v['choices'], 'info': v.get('info'),
             'failed_info': v.get('failed_info'), 'replay_note': v.get('replay_note')}
     h = hashlib.sha256(json.dumps(blob, sort_keys=True, default=str).encode()).hexdigest()[:12]
-    path = os.path.join(VERIF, 'replays', '%s-%s.json' % (prop, h))
+    path = os.path.join(os.environ.get('JV_REPLAY_DIR') or os.path.join(VERIF, 'replays'), '%s-%s.json' % (prop, h))
     with open(path, 'w') as f:
         json.dump(blob, f, indent=1, default=str)
     return path
